@@ -292,7 +292,29 @@ func (m *c04Model) check(r *Run, c *bridgeChecks, s *Step, o *Outcome) []Violati
 		}
 		outstanding := getOr0(g.perChainCredited, ch.Name).Sub(getOr0(g.perChainOut, ch.Name)).Sub(getOr0(inflightOf(ch, c.pre[ch.Name]), denom))
 		if denom == "FX" || need.LTE(outstanding) {
-			vs = append(vs, viol("withdrawable", "send/"+denom+"/module-short", "%s: send of %s %s by a holder with sufficient balance refused for lack of funds (outstanding through this chain: %s)", ch.Name, need, denom, outstanding))
+			site, why := "send/"+denom+"/module-short", ""
+			if tk := ch.tokenByBase(denom); tk != nil && denom != "FX" {
+				// attribute the shortfall: bridge tokens of this chain parked in the erc20 module after the refund
+				// of an outgoing bridge call (the refund converts through the erc20 module, the way out does not)
+				bd := cctypes.NewBridgeDenom(ch.Name, ExtAddrStr(ch.Name, tk.Contract))
+				have := w.App.BankKeeper.GetBalance(ctx, authtypes.NewModuleAddress(ch.Name), bd).Amount
+				stranded := w.App.BankKeeper.GetBalance(ctx, authtypes.NewModuleAddress("erc20"), bd).Amount
+				refunded := false
+				for _, cr := range c.c05.ch[ch.Name].calls {
+					if cr.State == "refunded" {
+						for _, t2 := range cr.Rec.Tokens {
+							if t2.Contract == ExtAddrStr(ch.Name, tk.Contract) && t2.Amount.IsPositive() {
+								refunded = true
+							}
+						}
+					}
+				}
+				if refunded && stranded.IsPositive() && need.Sub(have).LTE(stranded) {
+					site += "/stock-stranded-in-erc20-module-by-bridge-call-refund"
+					why = fmt.Sprintf("; the %s module holds %s %s, %s more sit in the erc20 module since an outgoing bridge call with this token was refunded", ch.Name, have, bd, stranded)
+				}
+			}
+			vs = append(vs, viol("withdrawable", site, "%s: send of %s %s by a holder with sufficient balance refused for lack of funds (outstanding through this chain: %s)%s", ch.Name, need, denom, outstanding, why))
 		} else {
 			r.Probe("withdraw-through-chain-without-backing-refused")
 		}
